@@ -26,10 +26,12 @@ import (
 	"net"
 	"net/http"
 	"net/http/httptest"
+	"os"
 	"runtime"
 	"strings"
 	"sync"
 	"sync/atomic"
+	"testing"
 	"time"
 
 	"github.com/eclipse/paho.mqtt.golang/packets"
@@ -47,6 +49,14 @@ const (
 	// generous outer watchdog for any single wait; its firing is INCONCLUSIVE, never a violation
 	c15rigWatchdog = 60 * time.Second
 )
+
+// c15rigSkipForReplay: when ./check replays one recorded case (VERIF_ONLY=<part>:<case>), the
+// other parts of the same test binary have nothing to do.
+func c15rigSkipForReplay(t *testing.T) {
+	if v := os.Getenv("VERIF_ONLY"); v != "" && !strings.HasPrefix(v, t.Name()+":") {
+		t.Skip("replay of another part")
+	}
+}
 
 // ------------------------------------------------------------------ recording pipeline
 
